@@ -127,6 +127,47 @@ def m2(chk, repo):
                 chk.violation("M2", key, c.where, "under symmetry the displacement of coordinate %d is %s; on the mirror-image (right-hand) half it becomes %s: the last spanwise node is taken as the root whatever the hand of the half, so sweep / dihedral act with the wrong sense on right-hand halves" % (col, _short(d), _short(mir)), algebraic=True)
             else:
                 chk.undecided("M2", key, c.where, "%s vs %s" % (_short(d), _short(mir)), algebraic=True)
+    # Stretch: the new y coordinate is odd under the mirror map (y -> -y, first <-> last)
+    from ..symx import SUB
+
+    c = repo.cls(G, "Stretch")
+    m = component_model(repo, c, domains=(SymX,))
+    for r in m.runs.get("compute", []):
+        if r.final is None:
+            continue
+        sym = [v for k, v in r.sigma.items() if "symmetry" in k]
+        if not sym or not sym[0]:
+            continue
+        t = r.domains["SYMX"].table
+        ob = r.final.heap.get(("out", "mesh"))
+        per = (ob.dom.get("SYMX_idx") or {}) if ob is not None else {}
+        e = per.get(":,:,1")
+        key = "Stretch.compute %s" % sig_txt(r.sigma)
+        if e is None:
+            chk.undecided("M2", key, c.where, "new spanwise coordinate not extracted", algebraic=True)
+            continue
+        subs_atoms = [a for a in e.atoms(sp.Function) if a.func == SUB]
+        ok_forms = all(str(a.args[1]) in (":,1", "-1,1", "0,1") for a in subs_atoms)
+        if not ok_forms or any(s_.name.startswith("in_mesh") and ",1]" in s_.name for s_ in e.free_symbols):
+            chk.undecided("M2", key, c.where, "spanwise coordinates enter in an unrecognised form: %s" % _short(e), algebraic=True)
+            continue
+        rep = {}
+        for a in subs_atoms:
+            E, sl = a.args[0], str(a.args[1])
+            if sl == ":,1":
+                rep[a] = -a
+            elif sl == "-1,1":
+                rep[a] = -SUB(E, sp.Symbol("0,1"))
+            else:
+                rep[a] = -SUB(E, sp.Symbol("-1,1"))
+        mir = e.subs(rep, simultaneous=True)
+        res = equal(mir, -e, t)
+        if res is True:
+            chk.ok("M2", key, c.where, "new y is odd under the mirror map", algebraic=True)
+        elif res is False:
+            chk.violation("M2", key, c.where, "under symmetry the new spanwise coordinate is %s; on the mirror-image half it becomes %s instead of its negative: the last spanwise node is treated as the root whatever the hand of the half" % (_short(e), _short(mir)), algebraic=True)
+        else:
+            chk.undecided("M2", key, c.where, "%s vs %s" % (_short(mir), _short(-e)), algebraic=True)
     # Taper / Rotate: idioms that fix the root at the last node, with no orientation test in the class
     for cname in ("Taper", "Rotate"):
         c = repo.cls(G, cname)
@@ -158,6 +199,49 @@ def m2(chk, repo):
                 chk.info("M2", key, c.where, "no last-node root idiom in the symmetry arm")
 
 
+def m3(chk, repo):
+    chk.rule("M3", "for a right-hand half EvalVelMtx re-indexes the influence array by reversing its spanwise axis only (axis 2 of [point, chordwise, spanwise, component]) -- the same operation in set-up (index array of the sparsity pattern) and in compute; a reversal of an axis obtained by merging the chordwise and spanwise axes would reverse the chordwise order as well", min_decided=2)
+    c = repo.cls(A + "eval_mtx.py", "EvalVelMtx")
+    for mn, f in c.methods.items():
+        for n in ast.walk(f.node):
+            if not (isinstance(n, ast.If) and "right_wing" in ast.unparse(n.test) and not ast.unparse(n.test).strip().startswith("not ")):
+                continue
+            key = "EvalVelMtx.%s: right-wing re-indexing (line text: %s)" % (mn, " ".join(ast.unparse(n.body[0]).split())[:60])
+            wh = "%s:%d" % (c.mod.rel, n.lineno)
+            revs, merged = [], {}
+            for st in n.body:
+                for x in ast.walk(st):
+                    if isinstance(x, ast.Assign) and isinstance(x.targets[0], ast.Name) and isinstance(x.value, ast.Call) and isinstance(x.value.func, ast.Attribute) and x.value.func.attr == "reshape":
+                        shp = x.value.args[0] if len(x.value.args) == 1 else ast.Tuple(elts=list(x.value.args))
+                        if isinstance(shp, ast.Tuple) and any(isinstance(e_, ast.UnaryOp) and isinstance(e_.operand, ast.Constant) and e_.operand.value == 1 for e_ in shp.elts):
+                            merged[x.targets[0].id] = [i for i, e_ in enumerate(shp.elts) if isinstance(e_, ast.UnaryOp)][0]
+                    if isinstance(x, ast.Subscript):
+                        elts = x.slice.elts if isinstance(x.slice, ast.Tuple) else [x.slice]
+                        ax = [i for i, e_ in enumerate(elts) if isinstance(e_, ast.Slice) and e_.lower is None and e_.upper is None and isinstance(e_.step, ast.UnaryOp) and isinstance(e_.step.operand, ast.Constant) and e_.step.operand.value == 1]
+                        if ax:
+                            revs.append((x, len(elts), ax))
+            if not revs:
+                chk.undecided("M3", key, wh, "no reversing subscript found under the orientation test")
+                continue
+            bad = None
+            for x, nel, ax in revs:
+                base = x.value.id if isinstance(x.value, ast.Name) else None
+                if base in merged and merged[base] in ax:
+                    bad = "reverses axis %d of '%s', which is the chordwise and spanwise axes merged by reshape(-1): the chordwise order is reversed too" % (merged[base], base)
+                elif not (nel == 4 and ax == [2]):
+                    if base in merged or nel != 4:
+                        bad = bad or None
+                        chk.undecided("M3", key, wh, "reversal %s not in the recognised 4-axis form" % ast.unparse(x)[:60])
+                        bad = "skip"
+                    else:
+                        bad = "reverses axis %s of the 4-axis influence array; a right-hand half differs from a left-hand half in the spanwise numbering (axis 2) only" % ax
+            if bad and bad != "skip":
+                chk.violation("M3", key, wh, bad)
+            elif not bad:
+                chk.ok("M3", key, wh, "spanwise axis reversed")
+
+
 def run(chk, repo, tier):
     m1(chk, repo)
     m2(chk, repo)
+    m3(chk, repo)
